@@ -27,6 +27,8 @@ func H_C17_total() {
 		vAssume(ok)
 	}
 	m, err := Parse(in) // a panic escaping Parse is a path outcome
+	vObserve("isError", err != nil)
+	vObserve("keys", len(m))
 	vAssert((m != nil && err == nil) || (m == nil && err != nil) || (n == 0 || vBlank(in)) && m == nil && err == nil, "map-xor-error")
 	vReach("returned")
 }
@@ -193,6 +195,7 @@ func H_C17_flatten() {
 	}
 	text := sp + vRender(e, sp, vChoose("trailing", 2) == 1) + sp
 	got, err := Parse(text)
+	vObserve("keys", len(got))
 	vAssert(err == nil && got != nil, "well-formed-expression-is-accepted")
 	if err == nil && got != nil {
 		want := map[string]string{}
